@@ -494,3 +494,196 @@ func Classes(c Case, r Result) (classes []string, f facts) {
 	}
 	return classes, f
 }
+
+var nodeLineRe = regexp.MustCompile(`(?m)^\tnode (\d+): (.*)$`)
+
+// CheckC07 evaluates the failure-reporting clauses. It returns the violation,
+// extra classes and whether the case is non-trivial.
+func CheckC07(c Case, r Result) (*Violation, []string, bool) {
+	f := extract(r)
+	fam := family(c.Call.Kind)
+	k := func(clause string) string { return "C07/" + fam + "/" + clause }
+	var classes []string
+	if v := CheckHang(c, r, "C07"); v != nil {
+		return v, classes, false
+	}
+	if f.ret == nil {
+		return nil, classes, false
+	}
+	ret := f.ret
+	// classify every targeted node from the observed history
+	type nodeFact struct {
+		kind string // healthy | handler-error | conn | ambiguous-reply (replied, stopped around) | ambiguous-error
+		plan NodePlan
+	}
+	facts := map[int]nodeFact{}
+	failing, kinds := 0, map[string]bool{}
+	stopAfterEnter := false
+	for _, s := range r.Targets {
+		p := c.plan(s)
+		ex, exited := f.exits[s]
+		stopT, stopped := f.stops[s]
+		nf := nodeFact{plan: p}
+		entered := len(f.enters[s]) > 0
+		switch {
+		case p.Kind == "down":
+			nf.kind = "conn"
+		case stopped && stopT < ret.T && (!exited || ex.T > stopT):
+			nf.kind = "conn"
+			if entered && f.enters[s][0].T < stopT {
+				stopAfterEnter = true
+				classes = append(classes, "stopped-while-held")
+			} else {
+				classes = append(classes, "stopped-before-enter")
+			}
+		case stopped && stopT < ret.T && exited:
+			// the answer was produced before the stop: it may or may not have got through
+			if p.Kind == "reply" {
+				nf.kind = "ambiguous-reply"
+			} else {
+				nf.kind = "ambiguous-error"
+			}
+			classes = append(classes, "stopped-after-answer")
+		case p.Kind == "error" || p.Kind == "replyerr":
+			nf.kind = "handler-error"
+		default:
+			nf.kind = "healthy"
+		}
+		facts[s] = nf
+		if nf.kind != "healthy" {
+			failing++
+			kinds[nf.kind+"/"+p.Kind] = true
+		}
+	}
+	nontrivial := failing >= 1 && (stopAfterEnter || len(kinds) >= 2 || kinds["handler-error/error"] || kinds["handler-error/replyerr"])
+	// replies seen by the quorum function
+	seen := map[int]bool{}
+	for _, q := range f.qfs {
+		for id := range q.Replies {
+			for s, sid := range r.IDs {
+				if sid == id {
+					seen[s] = true
+				}
+			}
+		}
+	}
+	for s, nf := range facts {
+		if seen[s] && (nf.kind == "handler-error" || nf.kind == "conn" || nf.kind == "ambiguous-error") {
+			return viol(k("reply-from-failing-node"), "the quorum function was shown a reply of node %d, which failed (%s)", r.IDs[s], nf.kind), classes, nontrivial
+		}
+	}
+	if ret.Outcome == "value" {
+		classes = append(classes, "tolerated")
+		return nil, classes, nontrivial
+	}
+	if ret.Outcome != "error" {
+		return nil, classes, nontrivial
+	}
+	// error lines
+	lines := map[int][]string{}
+	for _, m := range nodeLineRe.FindAllStringSubmatch(ret.ErrText, -1) {
+		id64, _ := strconv.ParseUint(m[1], 10, 32)
+		srv := -1
+		for s, sid := range r.IDs {
+			if uint64(sid) == id64 {
+				srv = s
+			}
+		}
+		if srv < 0 {
+			// a line for an id that is not a node of the manager: could be handler text; ignore unless no target matches
+			continue
+		}
+		lines[srv] = append(lines[srv], m[2])
+	}
+	targeted := map[int]bool{}
+	for _, s := range r.Targets {
+		targeted[s] = true
+	}
+	for s, ls := range lines {
+		if !targeted[s] && len(ls) > 0 && !msgMentionsNode(c, r.IDs[s]) {
+			return viol(k("error-for-untargeted-node"), "error lists node %d, which was not targeted", r.IDs[s]), classes, nontrivial
+		}
+	}
+	if ret.IsInc {
+		// exhaustion: every failing node exactly once, healthy nodes never
+		for _, s := range r.Targets {
+			nf := facts[s]
+			n := len(lines[s])
+			if msgMentionsNode(c, r.IDs[s]) {
+				continue // a handler message imitates a node line for this id; counting is unreliable
+			}
+			switch nf.kind {
+			case "healthy":
+				if n != 0 {
+					return viol(k("error-for-healthy-node"), "node %d answered with a reply but the error lists it: %q", r.IDs[s], lines[s][0]), classes, nontrivial
+				}
+			case "handler-error", "conn", "ambiguous-error":
+				if n != 1 {
+					return viol(k("error-count"), "failing node %d (%s) is listed %d times in the error, want exactly once: %s", r.IDs[s], nf.kind, n, ret.ErrText), classes, nontrivial
+				}
+			case "ambiguous-reply":
+				want := 1
+				if seen[s] {
+					want = 0
+				}
+				if n != want {
+					return viol(k("error-count"), "node %d (replied, then stopped; reply seen by the quorum function: %v) is listed %d times", r.IDs[s], seen[s], n), classes, nontrivial
+				}
+			}
+		}
+	}
+	// content of the lines (also for context errors: what is listed must be right)
+	for s, ls := range lines {
+		if !targeted[s] || msgMentionsNode(c, r.IDs[s]) {
+			continue
+		}
+		nf := facts[s]
+		for _, l := range ls {
+			switch nf.kind {
+			case "handler-error":
+				code, msg := expectedStatus(nf.plan)
+				if !strings.Contains(l, "code = "+code) || !strings.Contains(l, "desc = "+firstLine(msg)) {
+					return viol(k("handler-status-lost"), "node %d: handler failed with (%s, %q) but the error line is %q", r.IDs[s], code, msg, l), classes, nontrivial
+				}
+			case "conn":
+				if !unavailableType(l) {
+					return viol(k("conn-error-type"), "node %d: connection failure reported as %q, which is not of unavailable type", r.IDs[s], l), classes, nontrivial
+				}
+			}
+		}
+	}
+	return nil, classes, nontrivial
+}
+
+func msgMentionsNode(c Case, id uint32) bool {
+	for _, p := range c.Nodes {
+		if strings.Contains(p.ErrMsg, "node ") {
+			return true
+		}
+	}
+	return false
+}
+
+func expectedStatus(p NodePlan) (string, string) {
+	if p.Plain {
+		return "Unknown", p.ErrMsg
+	}
+	return codeName(p.ErrCode), p.ErrMsg
+}
+
+var codeNames = []string{"OK", "Canceled", "Unknown", "InvalidArgument", "DeadlineExceeded", "NotFound", "AlreadyExists", "PermissionDenied",
+	"ResourceExhausted", "FailedPrecondition", "Aborted", "OutOfRange", "Unimplemented", "Internal", "Unavailable", "DataLoss", "Unauthenticated"}
+
+func codeName(c int) string {
+	if c >= 0 && c < len(codeNames) {
+		return codeNames[c]
+	}
+	return fmt.Sprintf("Code(%d)", c)
+}
+
+// unavailableType: gorums' own "stream is down" and grpc transport errors
+// carry codes.Unavailable; a send on a broken stream reports io.EOF.
+func unavailableType(line string) bool {
+	return strings.Contains(line, "code = Unavailable") || line == "EOF" || strings.HasSuffix(line, ": EOF") || strings.Contains(line, "connection is nil") ||
+		strings.Contains(line, "connection refused") || strings.Contains(line, "context deadline exceeded")
+}
